@@ -10,3 +10,5 @@ def run(ctx):
     stage_steps(ctx, want=('break',))
     read_input(ctx, ['read.break_stops_reading'])
     go_chain(ctx, want=('go.chain',))        # the limiter is in the chain whenever --take is given (T = 0 included)
+    from ..conform import conformance
+    conformance(ctx, ['take'])      # the references the obligations are stated against, compared with jawk::go on concrete runs (validates the oracles; never decides)
